@@ -280,10 +280,13 @@ def require_model_ok(ctx, res, what):
 def load_known():
     """known_findings.json plus known_findings.d/*.json (one finding or a list per file)."""
     out, seen = [], set()
-    paths = [os.path.join(VERIF, "known_findings.json")]
+    # known_findings.d/*.json are the editable source of truth and win over the merged
+    # known_findings.json (which bin/mkdesign regenerates from them)
+    paths = []
     d = os.path.join(VERIF, "known_findings.d")
     if os.path.isdir(d):
         paths += sorted(os.path.join(d, f) for f in os.listdir(d) if f.endswith(".json"))
+    paths.append(os.path.join(VERIF, "known_findings.json"))
     for p in paths:
         if not os.path.exists(p):
             continue
